@@ -491,6 +491,20 @@ const BASES: &[&[&str]] = &[
         "stel t = \"{} en {}\"; print(t, p, m); t",
         "[p, r, m]",
     ],
+    // globals read from inside function bodies (anonymous functions called on the spot, a named one), among
+    // them a name no line ever declares
+    &[
+        "stel a = 1",
+        "functie() { a }()",
+        "stel b = [a, 2]",
+        "functie() { b[0] + a }()",
+        "a = a + 1",
+        "functie leesa() { a } leesa()",
+        "functie() { spook }()",
+        "stel a = 10",
+        "functie() { a + lengte(b) }()",
+        "[a, b]",
+    ],
 ];
 
 /// Lines that deviate from the ordinary: failures at parse, compile (at several statement positions, inside
@@ -529,6 +543,11 @@ const DEVIATIONS: &[&str] = &[
     "stel b = 1; stel a = 2; zz",
     "stel a = 3; 1 + ja",
     "stel n = 5; stel p = 6; zz",
+    // failing lines that declare a name AND read it from inside a function body
+    "stel a = 3; functie() { a }(); zz",
+    "stel spook = 5; functie() { spook }(); zz",
+    "{ stel spook = 5; functie() { spook }() }; zz",
+    "stel a = 3; functie() { a }(); 1 + ja",
     "volgende",
     "volgende; a = 7",
     "antwoord 5",
